@@ -20,7 +20,7 @@ type c14Case struct {
 
 // c14Contents are the byte contents a field can be filled with: admission is about LENGTHS in bytes, whatever
 // the bytes are (text in any encoding, binary, blanks).
-var c14Contents = []string{"pattern", "utf8-2byte", "utf8-3byte", "utf8-4byte", "zeros", "ff", "ascii-digits", "blanks", "utf8-mixed", "continuation-bytes"}
+var c14Contents = []string{"pattern", "utf8-2byte", "utf8-3byte", "utf8-4byte", "zeros", "ff", "ascii-digits", "blanks", "utf8-mixed", "continuation-bytes", "separators"}
 
 func fillContent(n int, seed byte, content int) []byte {
 	if n < 0 {
@@ -46,6 +46,8 @@ func fillContent(n int, seed byte, content int) []byte {
 		unit = "a\u00e9\u20acb\U0001F600"
 	case 9:
 		unit = "\x80\xbf\xa9"
+	case 10:
+		unit = "AB-CD EF_GH.IJ\tKL"
 	default:
 		return patt(n, seed)
 	}
